@@ -77,6 +77,9 @@ func (s *verifC16ClientStream) Recv() (*pb.SyncResponse, error) {
 }
 
 type verifC16Client struct {
+	// failover: the leader's source changes its replication id (r0 -> r1, same history continued)
+	// after the follower's handshake and before its next call
+	failover func()
 	leader   *ReplicaLeader
 	wait     usync.WaitCloser
 	follower *ReplicaFollower
@@ -91,6 +94,10 @@ func (c *verifC16Client) Sync(ctx context.Context, in *pb.SyncRequest, opts ...g
 		// bound of the exploration: the follower process is stopped here
 		c.follower.wait.Close(nil)
 		return nil, errors.New("rpc error: follower stopped")
+	}
+	if len(c.links) == 1 && c.failover != nil {
+		c.failover()
+		c.failover = nil
 	}
 	l := &verifC16Link{ch: make(chan *pb.SyncResponse), done: make(chan struct{}), gone: make(chan struct{}), cutAt: -1}
 	if len(c.links) == c.cutCall {
@@ -219,7 +226,14 @@ func VerifC16Sync() {
 	stream := verifBytes("ldr", n+2) // two more bytes exist in the history than the leader has cached
 	leaderState := verifChoose("leaderState", 3)
 	lc := verifC05Chan(L, 0)
-	lc.SetRunId("r1")
+	// optionally the leader is still under the previous id r0 when the follower shakes hands and
+	// switches to r1 (its source failed over; the history continues) before the follower's next call
+	failover := leaderState == 0 && verifChoose("failover", 2) == 1
+	lid0 := "r1"
+	if failover {
+		lid0 = "r0"
+	}
+	lc.SetRunId(lid0)
 	var snap []byte
 	cachedFrom := 0 // the leader's log starts at lbase+cachedFrom
 	switch leaderState {
@@ -264,7 +278,11 @@ func VerifC16Sync() {
 	fstate := verifChoose("followerState", 5)
 	var fbytes []byte
 	fbase := lbase
-	frun := "r1"
+	frun := lid0
+	otherId := "r0"
+	if failover {
+		otherId = "rz"
+	}
 	switch fstate {
 	case 0: // empty
 		frun = ""
@@ -274,11 +292,11 @@ func VerifC16Sync() {
 	case 2: // ahead of the leader in the same history
 		fbytes = stream[:n+verifRange("fahead", 1, 2)]
 	case 3: // another replication id, overlapping offsets
-		frun = "r0"
+		frun = otherId
 		fbase = lbase + int64(verifRange("fshift", -1, 1))
 		fbytes = verifBytes("other", verifRange("fotherlen", 1, n+1))
 	default: // another replication id whose right edge is exactly the leader's newest offset
-		frun = "r0"
+		frun = otherId
 		k := verifRange("fotherlen", 1, 2)
 		fbase = leaderRight - int64(k)
 		fbytes = verifBytes("other", k)
@@ -300,13 +318,25 @@ func VerifC16Sync() {
 
 	// ---- wire them together ----
 	wait := usync.NewWaitCloser(nil)
-	leader := &ReplicaLeader{logger: log.WithLogger("[verif-leader] "), input: &verifC16Input{ids: []string{"r1", "r0"}}, channel: lc}
+	input := &verifC16Input{ids: []string{"r1", "r0"}}
+	if failover {
+		verifAssume(fstate == 1) // (a follower ahead under the old id cannot be told from a diverged one)
+		input.ids = []string{"r0"}
+	}
+	leader := &ReplicaLeader{logger: log.WithLogger("[verif-leader] "), input: input, channel: lc}
 	leader.Start()
 	rf := NewReplicaFollower(1, "in", fc, &cluster.RoleInfo{Address: "leader"})
 	cli := &verifC16Client{leader: leader, wait: wait, follower: rf, cutCall: -1, maxCalls: verifParam("MAXCALLS", 5)}
 	if verifChoose("interrupt", 2) == 1 {
 		cli.cutCall = verifRange("cutCall", 0, 2)
 		cli.cutAt = verifRange("cutAt", 0, 2)
+	}
+	if failover {
+		cli.failover = func() {
+			lc.SetRunId("r1")
+			input.ids = []string{"r1", "r0"}
+		}
+		verifCover(true, "c16.leader-failover")
 	}
 	verifC16Cli = cli
 	err := rf.Run()
@@ -356,9 +386,10 @@ func VerifC16Sync() {
 			}
 			verifCover(true, "c16.snapshot-received")
 		}
-	} else if frunNow == "r0" {
-		// the follower never got as far as adopting the leader's id: its old copy is untouched
-		l, r := fc.GetOffsetRange("r0")
+	} else if frunNow != "" && frunNow == frun {
+		// the follower never got as far as adopting the leader's (new) id: its old copy is untouched -
+		// nothing of the leader's current history was stored under the old label
+		l, r := fc.GetOffsetRange(frun)
 		verifAssert(l == fbase && r == fRightBefore, "C16.follower-old-copy-damaged")
 	}
 	verifReach("c16.end")
